@@ -706,25 +706,56 @@ NEG_ZERO_OK = {
 
 
 def _nonzero_guard(gs, text):
-    """do the conditions `gs` imply `text` != 0 ?"""
-    for t, pol, e in gs:
+    """do the conditions `gs` imply `text` != 0 ?  Decided propositionally: under the hypothesis
+    text == 0 every comparison of `text` with a constant (and the truth value of `text` itself) is
+    fixed; all other sub-conditions are free atoms. The guards exclude zero iff no assignment of the
+    free atoms satisfies all of them."""
+    import itertools
+    atoms = []
+
+    def fixed(e):
+        if unparse(e) == text:
+            return False
         if isinstance(e, ast.Compare) and len(e.ops) == 1:
-            l, r, op = unparse(e.left), unparse(e.comparators[0]), e.ops[0]
-            if l == text and isinstance(e.comparators[0], ast.Constant):
-                c = e.comparators[0].value
-                if pol and ((isinstance(op, ast.Gt) and c >= 0) or (isinstance(op, ast.GtE) and c >= 1)
-                            or (isinstance(op, ast.NotEq) and c == 0)):
-                    return True
-                if pol and isinstance(op, ast.Eq) and isinstance(c, (int, float)) and c != 0:
-                    return True
-                if not pol and isinstance(op, ast.Eq) and c == 0:
-                    return True
-                if not pol and ((isinstance(op, ast.LtE) and c >= 0) or (isinstance(op, ast.Lt)
-                                                                        and c >= 1)):
-                    return True
-        if t == text and pol:
-            return True
-    return False
+            l, r, op = e.left, e.comparators[0], e.ops[0]
+            flip = {ast.Lt: ast.Gt, ast.Gt: ast.Lt, ast.LtE: ast.GtE, ast.GtE: ast.LtE}
+            if unparse(r) == text and isinstance(l, ast.Constant):
+                l, r = r, l
+                op = flip.get(type(op), type(op))()
+            if unparse(l) == text and isinstance(r, ast.Constant) and isinstance(
+                    r.value, (int, float)) and not isinstance(r.value, bool):
+                c = r.value
+                table = {ast.Eq: 0 == c, ast.NotEq: 0 != c, ast.Lt: 0 < c, ast.LtE: 0 <= c,
+                         ast.Gt: 0 > c, ast.GtE: 0 >= c}
+                return table.get(type(op))
+        return None
+
+    def collect(e):
+        if isinstance(e, ast.BoolOp):
+            for v in e.values:
+                collect(v)
+        elif isinstance(e, ast.UnaryOp) and isinstance(e.op, ast.Not):
+            collect(e.operand)
+        elif fixed(e) is None and unparse(e) not in atoms:
+            atoms.append(unparse(e))
+
+    def ev(e, env):
+        if isinstance(e, ast.BoolOp):
+            vals = [ev(v, env) for v in e.values]
+            return all(vals) if isinstance(e.op, ast.And) else any(vals)
+        if isinstance(e, ast.UnaryOp) and isinstance(e.op, ast.Not):
+            return not ev(e.operand, env)
+        fx = fixed(e)
+        return env[unparse(e)] if fx is None else fx
+    for t, pol, e in gs:
+        collect(e)
+    if len(atoms) > 12:
+        return False
+    for bits in itertools.product((False, True), repeat=len(atoms)):
+        env = dict(zip(atoms, bits))
+        if all(ev(e, env) == bool(pol) for t, pol, e in gs):
+            return False      # text == 0 is consistent with the conditions
+    return True
 
 
 def check_neg_zero_slices(prog, rep):
